@@ -41,13 +41,14 @@ From DnsV Require Model.Chain.
 Import ListNotations.
 Open Scope N_scope.
 
-(* [tie c]: the statement holds by computation, or the build stops naming the constant *)
-Ltac tie c :=
-  intros;
-  first [ reflexivity
-        | vm_compute; reflexivity
-        | fail 1 "SOURCE CONSTANT DRIFT:" c
-                 "of the Go source no longer has the value the Coq model uses (Gen/Params.v against the model / spec file named in this lemma)" ].
+(* [tie c] (statements with universally quantified arguments: conversion only) and [tiec c] (closed
+   statements: evaluation by the virtual machine): the statement holds by computation, or the build
+   stops naming the constant.  The time limits only bound how long a FAILING build takes. *)
+Ltac drift c :=
+  fail 1 "SOURCE CONSTANT DRIFT:" c
+         "of the Go source no longer has the value the Coq model uses (Gen/Params.v against the model / spec file named in this lemma)".
+Ltac tie c := intros; first [ timeout 60 reflexivity | drift c ].
+Ltac tiec c := first [ timeout 120 (vm_compute; reflexivity) | drift c ].
 
 (* ================================================================== C09  text format (Model/Text.v, Model/Preproc.v) *)
 Module C09.
@@ -128,7 +129,7 @@ Proof. tie go_dnsdata_Rsoa_default_exp. Qed.
 Lemma go_dnsdata_Rtxt_chunk_matches :
   txt_chunks (repeat 65 (S (N.to_nat go_dnsdata_Rtxt_chunk))) 0 [] =
   go_dnsdata_Rtxt_chunk :: repeat 65 (N.to_nat go_dnsdata_Rtxt_chunk) ++ [1; 65].
-Proof. tie go_dnsdata_Rtxt_chunk. Qed.
+Proof. tiec go_dnsdata_Rtxt_chunk. Qed.
 
 (* putrrhead: the marker character after the type, for every type, ttl and location *)
 Lemma go_dnsdata_putrrhead_noloc_exact_matches : forall t ttl,
@@ -157,7 +158,7 @@ Proof. tie go_dnsdata_RangePointKeyMarker. Qed.
 Lemma go_dnsdata_MlenNoLoc_matches_preproc :
   Model.Preproc.rp_of_kv (go_dnsdata_RangePointKeyMarker ++ repeat 7 19, []) =
   Some (RRangePoint [7; 7] (repeat 7 16) go_dnsdata_MlenNoLoc true [0; 0]).
-Proof. tie go_dnsdata_MlenNoLoc. Qed.
+Proof. tiec go_dnsdata_MlenNoLoc. Qed.
 Lemma go_dnsdata_FeaturesKey_matches_preproc : forall v2,
   fst (Model.Preproc.feature_kv v2) = go_dnsdata_FeaturesKey.
 Proof. tie go_dnsdata_FeaturesKey. Qed.
@@ -213,7 +214,7 @@ Proof. tie go_dnsdata_Rsoa_default_ref. Qed.
 Lemma go_dnsdata_Rtxt_chunk_matches_declared :
   Spec.Declared.txt_rdata (repeat 65 (S (N.to_nat go_dnsdata_Rtxt_chunk))) =
   go_dnsdata_Rtxt_chunk :: repeat 65 (N.to_nat go_dnsdata_Rtxt_chunk) ++ [1; 65].
-Proof. tie go_dnsdata_Rtxt_chunk. Qed.
+Proof. tiec go_dnsdata_Rtxt_chunk. Qed.
 
 (* pinned: handler.go falls back to DefaultMaxAnswer when the context carries no max answer; the
    models (Model/Serve.v serve, Model/Chain.v config) take the max answer as an argument, the
@@ -238,7 +239,7 @@ Lemma go_rdb_minBucketSize_matches : Run.C07.min_bucket_size = go_rdb_minBucketS
 Proof. tie go_rdb_minBucketSize. Qed.
 (* the theorems about the builder (Proofs/CompilePipe.v build_lossless ...) need 1 <= min_size *)
 Lemma go_rdb_minBucketSize_admissible : 1 <= go_rdb_minBucketSize.
-Proof. intros; first [ vm_compute; discriminate | fail 1 "SOURCE CONSTANT DRIFT:" go_rdb_minBucketSize "is 0: outside the hypotheses of the builder theorems" ]. Qed.
+Proof. intros; first [ vm_compute; discriminate | drift go_rdb_minBucketSize ]. Qed.
 
 (* observable: compileBatches, if batchSize <= 0 { batchSize = DefaultBatchSize } *)
 Lemma go_rdb_DefaultBatchSize_matches :
@@ -253,7 +254,7 @@ Lemma go_rdb_compileBatches_unlimited_parallel_matches :
   go_rdb_compileBatches_unlimited_parallel = pinned_unlimited_parallel /\ 1 <= go_rdb_compileBatches_unlimited_parallel.
 Proof.
   split; [ tie go_rdb_compileBatches_unlimited_parallel
-         | first [ vm_compute; discriminate | fail 1 "SOURCE CONSTANT DRIFT:" go_rdb_compileBatches_unlimited_parallel "is 0" ] ].
+         | first [ vm_compute; discriminate | drift go_rdb_compileBatches_unlimited_parallel ] ].
 Qed.
 
 Definition tie :=
@@ -278,11 +279,14 @@ Lemma go_db_EcsLocation_v4_offset_matches : forall fam mask,
   (Some (mkLocation (0, 1) mask (0, 2)),
    if fam =? go_db_EcsLocation_v4_offset_family then (mask + 256 - go_db_EcsLocation_v4_offset) mod 256 else mask mod 256).
 Proof. tie go_db_EcsLocation_v4_offset. Qed.
-(* the map type EcsLocation searches with *)
-Lemma go_db_EcsLocation_map_type_matches : forall b db q src a,
-  ecs_location b db q 1 src a =
-  rbind (locate b db go_db_EcsLocation_map_type q (ecs_client 1 src a)) (fun l => Ok (ecs_scope 1 l)).
-Proof. tie go_db_EcsLocation_map_type. Qed.
+(* the map type EcsLocation searches with: a CDB holding one map record of that type for the root
+   name (map 0 1, no subnets) - the map applies, no location matches, default scope; a map record of
+   the resolver type is not looked at *)
+Lemma go_db_EcsLocation_map_type_matches :
+  ecs_location (BCdb false) [(go_db_EcsLocation_map_type ++ [0; 61], [0; 1])] [0] 1 32 Base.Ip.first_v4
+    = Ok (None, go_db_EcsLocation_default_scope) /\
+  ecs_location (BCdb false) [([0; 77; 0; 61], [0; 1])] [0] 1 32 Base.Ip.first_v4 = Ok (None, 0).
+Proof. split; tiec go_db_EcsLocation_map_type. Qed.
 
 (* key elements of db/location.go *)
 Lemma go_db_ipMapKeyElement_matches : forall m a len,
@@ -299,7 +303,7 @@ Proof. tie go_db_exactMatchKeyElement. Qed.
 Lemma go_db_maskLensKeyElement_matches_written :
   option_map (map fst) (cdb_db (mkDfile [] [])) =
   Some [go_db_maskLensKeyElement; go_db_maskLensKeyElementv4; go_db_maskLensKeyElementv6; go_dnsdata_FeaturesKey].
-Proof. tie go_db_maskLensKeyElement. Qed.
+Proof. tiec go_db_maskLensKeyElement. Qed.
 (* ... and which of them cdbdriver.GetLocationByMap reads: a database holding one length set (the
    single length 128) under key k and one /128 subnet of map 0 1 - the subnet is found exactly when
    the driver reads the set under k *)
@@ -315,7 +319,7 @@ Lemma go_db_maskLensKeyElement_matches_read :
   cdb_get_location true (dbk go_db_maskLensKeyElementv4 1) (0, 1) v6client = Ok (None, 0) /\
   cdb_get_location true (dbk go_db_maskLensKeyElement 1) (0, 1) v6client = Ok (None, 0) /\
   cdb_get_location false (dbk go_db_maskLensKeyElementv4 Base.Ip.first_v4) (0, 1) v4client = Ok (None, 0).
-Proof. repeat split; tie go_db_maskLensKeyElement. Qed.
+Proof. repeat split; tiec go_db_maskLensKeyElement. Qed.
 Lemma go_dnsdata_FeaturesKey_matches_location : features_key = go_dnsdata_FeaturesKey.
 Proof. tie go_dnsdata_FeaturesKey. Qed.
 
@@ -365,8 +369,7 @@ Lemma go_dnsserver_cache_key_format_matches : forall k,
   = Some (key_string k).
 Proof.
   intros; first [ cbv [render go_dnsserver_cache_key_format option_map key_string]; rewrite app_nil_r; reflexivity
-                | fail 1 "SOURCE CONSTANT DRIFT:" go_dnsserver_cache_key_format
-                         "of the Go source no longer renders to Model/Cache.v key_string" ].
+                | drift go_dnsserver_cache_key_format ].
 Qed.
 
 (* observable: the expiry of the entry a non-weighted, non-refused answer leaves in an empty cache
@@ -391,7 +394,7 @@ Lemma go_gocdb_headerSize_matches : Model.Cdb.header_size = go_gocdb_headerSize.
 Proof. tie go_gocdb_headerSize. Qed.
 (* observable: the size Spec/Cdb.v prescribes for the file of no pairs is the header *)
 Lemma go_gocdb_headerSize_matches_spec : Spec.Cdb.file_size [] = go_gocdb_headerSize.
-Proof. tie go_gocdb_headerSize. Qed.
+Proof. tiec go_gocdb_headerSize. Qed.
 
 (* pinned: the key length from which hashKey switches from spooky.Hash32 to the streaming hasher.
    Model/Cdb.v is parametric in the hash function H (every theorem of C16 holds for every H); that
@@ -425,7 +428,7 @@ Lemma go_metrics_cleaner_tick_seconds_matches :
   go_metrics_cleaner_tick_seconds = pinned_cleaner_tick_seconds /\ (1 <= go_metrics_cleaner_tick_seconds)%N.
 Proof.
   split; [ tie go_metrics_cleaner_tick_seconds
-         | first [ vm_compute; discriminate | fail 1 "SOURCE CONSTANT DRIFT:" go_metrics_cleaner_tick_seconds "is 0: time.NewTicker panics" ] ].
+         | first [ vm_compute; discriminate | drift go_metrics_cleaner_tick_seconds ] ].
 Qed.
 (* the model at the production lifetime: a sample is exported up to and including its 60th second *)
 Lemma production_window_boundary : forall v,
@@ -447,7 +450,7 @@ Import Model.Chain.
 Lemma go_fbserver_any_hinfo_matches :
   hinfo_rdata = (nlen go_fbserver_any_hinfo_cpu :: go_fbserver_any_hinfo_cpu) ++
                 (nlen go_fbserver_any_hinfo_os :: go_fbserver_any_hinfo_os).
-Proof. tie go_fbserver_any_hinfo_cpu. Qed.
+Proof. tiec go_fbserver_any_hinfo_cpu. Qed.
 (* observable: the answer section of the reply to an ANY question, for every request *)
 Lemma go_fbserver_any_ttl_matches : forall r q,
   man (any_reply r q) = [mkRR (qname q) TypeHINFO ClassINET go_fbserver_any_ttl hinfo_rdata].
